@@ -554,7 +554,7 @@ fn broken_body_cases(fx: &mut Fixture, cov: &mut Cov) -> Option<Found> {
 }
 
 /// Large-body cases around the 100 MiB limit (in-process, exact chunk control).
-fn large_body_cases(fx: &mut Fixture, cov: &mut Cov, tap: &mut dyn FnMut(&HttpReq, &HttpResp)) -> Option<Found> {
+fn large_body_cases(fx: &mut Fixture, cov: &mut Cov, tap: &mut dyn FnMut(&HttpReq, &HttpResp), only: Option<&[&str]>) -> Option<Found> {
     for route in [Route::AddVersion, Route::AddSnapshot] {
         let variants: Vec<(&str, Vec<Vec<u8>>, bool)> = vec![
             ("limit-1/one-chunk", vec![vec![7u8; LIMIT - 1]], true),
@@ -569,6 +569,11 @@ fn large_body_cases(fx: &mut Fixture, cov: &mut Cov, tap: &mut dyn FnMut(&HttpRe
             ("limit+1/limit-then-1", vec![vec![7u8; LIMIT], vec![1]], false),
         ];
         for (name, chunks, ok) in variants {
+            if let Some(o) = only {
+                if !o.contains(&name) {
+                    continue;
+                }
+            }
             let c = 0;
             let id = *fx.chains[c].last().unwrap();
             let (path, ct) = match route {
@@ -585,7 +590,7 @@ fn large_body_cases(fx: &mut Fixture, cov: &mut Cov, tap: &mut dyn FnMut(&HttpRe
             fx.last_dump = Some(after);
             let desc = format!("POST {path} with body {name}");
             if resp.failure.is_some() || resp.status >= 500 {
-                return Some(found("C15", format!("{desc} made the server fail: {}", resp.describe()), json!({"origin": "large", "case": name})));
+                return Some(found("C15", format!("[{}] {desc} made the server fail: {}", fx.subj.kind.name(), resp.describe()), json!({"origin": "large", "case": name})));
             }
             if ok {
                 if resp.status != 200 {
@@ -795,6 +800,20 @@ pub fn shard_run_grammar(prop: &str, tier: &str, seed: u64, replay_case: Option<
                 }
             }
         }
+        if replay_case.is_none() && shard.k == (5 % shard.n) && prop == "C20" {
+            let k = fx.clients[0].to_string();
+            let id = *fx.chains[0].last().unwrap();
+            for r in operational_requests(&k, id) {
+                let resp = fx.subj.http(&r);
+                cov.evaluations += 1;
+                cov.hit(format!("operational|{}|status={}", if r.method == "OPTIONS" { "preflight-or-options" } else { "well-known-path" }, resp.status));
+            }
+            if let Some((rq, rs)) = c20_found.lock().unwrap().clone() {
+                out.found.push(found("C20", format!("[{}] response to {rq} does not forbid caching: {rs}", fx.subj.kind.name()), json!({"origin": "operational", "case": 0})));
+                out.cov = cov;
+                return out;
+            }
+        }
         if replay_case.is_none() && shard.k == (4 % shard.n) && prop == "C15" {
             if let Some(f) = broken_body_cases(&mut fx, &mut cov) {
                 out.found.push(f);
@@ -803,12 +822,15 @@ pub fn shard_run_grammar(prop: &str, tier: &str, seed: u64, replay_case: Option<
             }
         }
         // the 100 MiB cases: one worker, in-memory backend (thorough: SQLite as well)
-        if replay_case.is_none() && shard.k == (1 % shard.n) && (*backend == Backend::Mem || thorough) && prop == "C15" {
+        // the 100 MiB cases: in-memory backend on one worker, SQLite on another (quick: only the body
+        // of exactly the limit on SQLite)
+        if replay_case.is_none() && shard.k == (if *backend == Backend::Mem { 1 } else { 6 } % shard.n) && prop == "C15" {
             let t2 = tally.clone();
             let c2 = c20_found.clone();
             let tapf = mk_tap(t2, c2);
             let mut tapm = |a: &HttpReq, b: &HttpResp| tapf(a, b);
-            if let Some(f) = large_body_cases(&mut fx, &mut cov, &mut tapm) {
+            let only: Option<&[&str]> = if *backend == Backend::Sqlite && !thorough { Some(&["limit/one-chunk", "limit-1/one-chunk"]) } else { None };
+            if let Some(f) = large_body_cases(&mut fx, &mut cov, &mut tapm, only) {
                 out.found.push(f);
                 out.cov = cov;
                 return out;
@@ -926,6 +948,27 @@ enum IdClass {
     AltUnlisted(u8),
     /// no X-Client-Id at all; the (unlisted) id travels under another header name
     OtherHeader(u8),
+    /// an unlisted id that is bit-wise close or related to a listed one (halves swapped, one bit
+    /// flipped, bytes reversed, complement, both halves changed by the same pattern, ...)
+    NearListed(u8),
+}
+
+const NEAR_FORMS: u8 = 8;
+
+fn near_id(listed: Uuid, form: u8) -> Uuid {
+    let x = listed.as_u128();
+    let y = match form {
+        0 => (x << 64) | (x >> 64),
+        1 => x ^ 1,
+        2 => x ^ (1u128 << 127),
+        3 => u128::from_le_bytes(x.to_be_bytes()),
+        4 => !x,
+        5 => x ^ ((0x5a5a_0000_1234_5678u128 << 64) | 0x5a5a_0000_1234_5678u128),
+        6 => x ^ (0xffu128 << 64),
+        _ => x.wrapping_add(1),
+    };
+    let y = if y == x { x ^ 2 } else { y };
+    Uuid::from_u128(y)
 }
 
 const OTHER_ID_HEADERS: [&str; 6] = ["X-Client-Key", "Client-Id", "X-ClientId", "X-Client", "Authorization", "Cookie"];
@@ -946,10 +989,10 @@ fn alt_spelling(u: Uuid, form: u8) -> String {
     }
 }
 
-fn c16_request(fx: &Fixture, endpoint: usize, idtext: &str, owner: usize, validity: Validity) -> HttpReq {
+fn c16_request(fx: &Fixture, endpoint: usize, idtext: &str, owner: usize, validity: Validity, nil_path: bool) -> HttpReq {
     let chain = &fx.chains[owner];
-    let latest = *chain.last().unwrap();
-    let first = chain[0];
+    let latest = if nil_path { Uuid::nil() } else { *chain.last().unwrap() };
+    let first = if nil_path { Uuid::nil() } else { chain[0] };
     let (method, path, ct) = match endpoint {
         0 => ("POST", format!("/v1/client/add-version/{latest}"), Some(CT_HISTORY)),
         1 => ("GET", format!("/v1/client/get-child-version/{first}"), None),
@@ -1032,11 +1075,17 @@ pub fn shard_run_c16(tier: &str, seed: u64, replay_case: Option<usize>, shard: S
             for f in 0..OTHER_ID_HEADERS.len() as u8 {
                 classes.push(IdClass::OtherHeader(f));
             }
+            for f in 0..NEAR_FORMS {
+                classes.push(IdClass::NearListed(f));
+            }
             let mut sub = 0usize;
             for endpoint in 0..4usize {
                 for idc in &classes {
-                    for validity in [Validity::WellFormed, Validity::BadContentType, Validity::EmptyBody] {
+                    for (validity, nil_path) in [(Validity::WellFormed, false), (Validity::BadContentType, false), (Validity::EmptyBody, false), (Validity::WellFormed, true)] {
                         if (endpoint == 1 || endpoint == 3) && validity != Validity::WellFormed {
+                            continue;
+                        }
+                        if nil_path && endpoint == 3 {
                             continue;
                         }
                         sub += 1;
@@ -1056,9 +1105,13 @@ pub fn shard_run_c16(tier: &str, seed: u64, replay_case: Option<usize>, shard: S
                             IdClass::AltListed(f) => (alt_spelling(listed_id, *f), 0, Some(listed_id)),
                             IdClass::AltUnlisted(f) => (alt_spelling(unlisted_data, *f), 1, Some(unlisted_data)),
                             IdClass::OtherHeader(_) => (unlisted_data.to_string(), 1, Some(unlisted_data)),
+                            IdClass::NearListed(f) => {
+                                let n = near_id(listed_id, *f);
+                                (n.to_string(), 1, Some(n))
+                            }
                         };
-                        let mut req = c16_request(&fx, endpoint, &idtext, owner, validity);
-                        let mut treq = c16_request(&twin, endpoint, &idtext, owner, validity);
+                        let mut req = c16_request(&fx, endpoint, &idtext, owner, validity, nil_path);
+                        let mut treq = c16_request(&twin, endpoint, &idtext, owner, validity, nil_path);
                         if let IdClass::OtherHeader(f) = idc {
                             let name = OTHER_ID_HEADERS[*f as usize];
                             let val = match name {
@@ -1081,7 +1134,7 @@ pub fn shard_run_c16(tier: &str, seed: u64, replay_case: Option<usize>, shard: S
                         out.executed += 1;
                         let allowed = subject_id.map(|u| in_list(&u)).unwrap_or(false);
                         let ctx = format!("[{} list={}] {}", fx.subj.kind.name(), match list_kind { 0 => "absent", 1 => "empty", 2 => "one", _ => "many" }, req.describe());
-                        cov.hit(format!("list={}|ep={}|{:?}|{:?}|status={}|access={}", list_kind, endpoint, match idc { IdClass::AltListed(_) => IdClass::AltListed(0), IdClass::AltUnlisted(_) => IdClass::AltUnlisted(0), IdClass::OtherHeader(_) => IdClass::OtherHeader(0), o => *o }, validity, resp.status, accesses > 0));
+                        cov.hit(format!("list={}|ep={}|{:?}|{:?}|status={}|access={}", list_kind, endpoint, match idc { IdClass::AltListed(_) => IdClass::AltListed(0), IdClass::AltUnlisted(_) => IdClass::AltUnlisted(0), IdClass::OtherHeader(_) => IdClass::OtherHeader(0), IdClass::NearListed(_) => IdClass::NearListed(0), o => *o }, validity, resp.status, accesses > 0));
                         if cov.samples.is_empty() || (cov.samples.len() < 4 && sub % 13 == 5) {
                             cov.samples.push(json!({"context": ctx, "status": resp.status, "storage_accesses": accesses, "state_changed": changed}));
                         }
@@ -1090,7 +1143,7 @@ pub fn shard_run_c16(tier: &str, seed: u64, replay_case: Option<usize>, shard: S
                         if resp.failure.is_some() || resp.status >= 500 {
                             bad = Some(format!("{ctx}: server failed: {}", resp.describe()));
                         }
-                        let canonical = matches!(idc, IdClass::Listed | IdClass::UnlistedWithData | IdClass::UnlistedUnknown);
+                        let canonical = matches!(idc, IdClass::Listed | IdClass::UnlistedWithData | IdClass::UnlistedUnknown | IdClass::NearListed(_));
                         let alt = matches!(idc, IdClass::AltListed(_) | IdClass::AltUnlisted(_) | IdClass::OtherHeader(_));
                         if bad.is_none() {
                             if *idc == IdClass::Malformed {
@@ -1288,6 +1341,14 @@ fn binary_sample(prop: &str, seed: u64, n: usize, grams: &[Gram], cov: &mut Cov,
                 HttpReq::new("GET", "/v1/client/nowhere").header("X-Client-Id", &k),
             ]
         };
+        for r in operational_requests(&k, nil) {
+            let resp = socket_request(&addr, &r, Framing::ContentLength, Duration::from_secs(20));
+            cov.evaluations += 1;
+            cov.hit(format!("executable|operational|{}|status={}", if r.method == "OPTIONS" { "preflight-or-options" } else { "well-known-path" }, if resp.failure.is_some() { "closed".to_string() } else { resp.status.to_string() }));
+            if resp.failure.is_none() && !no_store(&resp) {
+                return Some(found("C20", format!("the real executable: the response to {} does not forbid caching: {}", r.describe(), resp.describe()), json!({"origin": "executable", "case": 50_000_001})));
+            }
+        }
         for phase in ["healthy", "data-dir-removed", "data-dir-unreadable"] {
             if phase == "data-dir-removed" {
                 let _ = std::fs::remove_dir_all(dir.path());
@@ -1310,6 +1371,26 @@ fn binary_sample(prop: &str, seed: u64, n: usize, grams: &[Gram], cov: &mut Cov,
     }
     proc.kill9();
     None
+}
+
+/// Requests outside the protocol that deployments nevertheless see: CORS preflights (browser
+/// replicas), probes of well-known operational paths (load balancers, monitoring, crawlers).
+fn operational_requests(k: &str, id: Uuid) -> Vec<HttpReq> {
+    let mut v = vec![];
+    let proto_paths = [format!("/v1/client/add-version/{id}"), format!("/v1/client/get-child-version/{id}"), format!("/v1/client/add-snapshot/{id}"), "/v1/client/snapshot".to_string(), "/".to_string(), "/v1/client/nowhere".to_string()];
+    for p in &proto_paths {
+        for acrm in ["POST", "GET"] {
+            v.push(HttpReq::new("OPTIONS", p).header("Origin", "https://app.example.org").header("Access-Control-Request-Method", acrm).header("Access-Control-Request-Headers", "x-client-id, content-type"));
+        }
+        v.push(HttpReq::new("OPTIONS", p).header("Origin", "https://app.example.org"));
+        v.push(HttpReq::new("GET", p).header("Origin", "https://app.example.org").header("X-Client-Id", k));
+    }
+    for p in ["/healthz", "/health", "/livez", "/readyz", "/ready", "/metrics", "/status", "/version", "/ping", "/favicon.ico", "/robots.txt", "/index.html", "/v1", "/v1/", "/v1/client", "/v1/client/", "/.well-known/security.txt", "/api", "/admin"] {
+        v.push(HttpReq::new("GET", p));
+        v.push(HttpReq::new("GET", p).header("X-Client-Id", k));
+        v.push(HttpReq::new("HEAD", p));
+    }
+    v
 }
 
 fn socket_sample_at(prop: &str, seed: u64, n: usize, grams: &[Gram], cov: &mut Cov, fx: &Fixture, addr: &str, label: &str) -> Option<Found> {
